@@ -62,3 +62,62 @@ package spg
 //@   loop 4 invariant [C12] pos:   0 <= prevPos && prevPos <= clen(pw) && prevPos == psum(arr(ti), off(ti)+1, 2, (i-1)/2)
 //@   loop 4 invariant [C12] done:  forall(int(j), 0 <= j && j < (i-1)/2 ==> tokens[j].tType == ti[2+2*j] &&
 //@               tokens[j].value == seg(pw, psum(arr(ti), off(ti)+1, 2, j), psum(arr(ti), off(ti)+1, 2, j+1)))
+
+//@ func (Tokens).maxTokenLen
+//@   ensures [C11] nonneg:   res >= 0
+//@   ensures [C11] upper:    forall(int(j), 0 <= j && j < len(ts) ==> clen(ts[j].value) <= res)
+//@   ensures [C11] attained: res == 0 || exists(int(j), 0 <= j && j < len(ts) && clen(ts[j].value) == res)
+//@   loop 1 invariant [C11] upper:    max >= 0 && forall(int(j), 0 <= j && j < it ==> clen(ts[j].value) <= max)
+//@   loop 1 invariant [C11] attained: max == 0 || exists(int(j), 0 <= j && j < it && clen(ts[j].value) == max)
+
+//@ func (Tokens).minTokenLen
+//@   ensures [C11] lower:    forall(int(j), 0 <= j && j < len(ts) ==> res <= clen(ts[j].value))
+//@   ensures [C11] attained: res == 2147483647 || exists(int(j), 0 <= j && j < len(ts) && clen(ts[j].value) == res)
+//@   loop 1 invariant [C11] lower:    forall(int(j), 0 <= j && j < it ==> min <= clen(ts[j].value))
+//@   loop 1 invariant [C11] attained: min == 2147483647 || exists(int(j), 0 <= j && j < it && clen(ts[j].value) == min)
+
+//@ func (Tokens).Types
+//@   ensures [C11] fresh:   fresh(res) && res != nil
+//@   ensures [C11] present: forall(int(t), dom(res, t) == exists(int(j), 0 <= j && j < len(ts) && ts[j].tType == t))
+//@   ensures [C11] values:  forall(int(t), dom(res, t) ==> res[t])
+//@   loop 1 invariant [C11] present: forall(int(t), dom(found, t) == exists(int(j), 0 <= j && j < it && ts[j].tType == t))
+//@   loop 1 invariant [C11] values:  forall(int(t), dom(found, t) ==> found[t])
+
+//@ func (Tokens).isAllOfType
+//@   ensures [C11] all: res == (len(ts) > 0 && forall(int(j), 0 <= j && j < len(ts) ==> ts[j].tType == tt))
+
+//@ func (Tokens).isAlternatingTokens
+//@   ensures [C11] alt: res == alternating(arr(ts), off(ts), len(ts))
+//@   loop 1 invariant [C11] sofar: forall(int(j), 0 <= j && j < it ==> ts[j].tType == ite(j%2 == 0, AtomType, SeparatorType))
+
+//@ func (Tokens).Kind
+//@   ensures [C11] kind: res == kindOf(arr(ts), off(ts), len(ts))
+
+//@ func (Tokens).MakeIndices
+//@   ensures [C11] empty:   len(ts) == 0 ==> len(res) == 0 && err == nil
+//@   ensures [C11] err-iff: len(ts) > 0 ==> ((err != nil) == (kindOf(arr(ts), off(ts), len(ts)) != 0 &&
+//@                              exists(int(j), 0 <= j && j < len(ts) && clen(ts[j].value) > 255)))
+//@   ensures [C11] kind:    err == nil && len(ts) > 0 ==> len(res) >= 1 && res[0] == kindOf(arr(ts), off(ts), len(ts))
+//@   ensures [C11] size:    err == nil && len(ts) > 0 ==> len(res) == ite(kindOf(arr(ts), off(ts), len(ts)) == 0, 1,
+//@                              ite(kindOf(arr(ts), off(ts), len(ts)) == 3, 2*len(ts)+1, len(ts)+1))
+//@   ensures [C11] lengths: err == nil && len(ts) > 0 && (kindOf(arr(ts), off(ts), len(ts)) == 1 || kindOf(arr(ts), off(ts), len(ts)) == 2) ==>
+//@                              forall(int(j), 0 <= j && j < len(ts) ==> res[1+j] == clen(ts[j].value))
+//@   ensures [C11] pairs:   err == nil && len(ts) > 0 && kindOf(arr(ts), off(ts), len(ts)) == 3 ==>
+//@                              forall(int(j), 0 <= j && j < len(ts) ==> res[1+2*j] == clen(ts[j].value) && res[2+2*j] == ts[j].tType)
+//@   ensures [C11] fresh:   err == nil && len(ts) > 0 ==> fresh(res)
+//@   loop 1 invariant [C11] filled: forall(int(j), 0 <= j && j < i ==> ti[j] == clen(ts[j].value) && clen(ts[j].value) <= 255)
+//@   loop 1 invariant [C11] head:   first[0] == kind
+//@   loop 2 invariant [C11] copied: len(first) == 1 + it && first[0] == kind && arrid(first) != arrid(ti) && fresh(first) &&
+//@                              forall(int(j), 0 <= j && j < it ==> first[1+j] == ti[j])
+//@   loop 2 invariant [C11] source: forall(int(j), 0 <= j && j < len(ts) ==> ti[j] == clen(ts[j].value) && clen(ts[j].value) <= 255)
+//@   loop 3 invariant [C11] filled: forall(int(j), 0 <= j && j < i ==> ti[2*j] == clen(ts[j].value) && ti[2*j+1] == ts[j].tType && clen(ts[j].value) <= 255)
+//@   loop 3 invariant [C11] head:   first[0] == 3
+//@   loop 4 invariant [C11] copied: len(first) == 1 + it && first[0] == 3 && arrid(first) != arrid(ti) && fresh(first) &&
+//@                              forall(int(j), 0 <= j && j < it ==> first[1+j] == ti[j])
+//@   loop 4 invariant [C11] source: forall(int(j), 0 <= j && j < len(ts) ==> ti[2*j] == clen(ts[j].value) && ti[2*j+1] == ts[j].tType && clen(ts[j].value) <= 255)
+
+// ---------------------------------------------------------------- password.go
+
+//@ func (Password).String
+//@   ensures [C05,C11] cat: res == catTok(arr(p.tokens), off(p.tokens), len(p.tokens))
+//@   loop 1 invariant [C05] cat: pw == catTok(arr(p.tokens), off(p.tokens), it)
